@@ -202,12 +202,52 @@ def _term_equal(s, t):
             break
         sub = [(t.vars[perm[i]], s.vars[i]) for i in range(n)]
         rhs = z3.substitute(rhs0, *sub) if z3.is_expr(rhs0) and sub else rhs0
-        st, m = sym.refute_or_prove(t_eq(lhs, rhs), extra=list(s.hyps))
+        st, m = sym.prove_goal(t_eq(lhs, rhs), extra=list(s.hyps))
         if st == "proved":
             return "proved", "", None
         if tried == 1:
             last = (st, f"summands differ: {_short(lhs)} vs {_short(rhs)}", m)
+    # re-indexing by a signed-permutation bijection of a D-dimensional sub-box (Equiv.sum_comp): candidates are
+    # supplied by the caller (the pixel maps of the group element under consideration)
+    for (col, sgn) in REINDEX:
+        r = _reindexed_equal(s, t, col, sgn, lhs, rhs0)
+        if r is not None:
+            return r
     return last
+
+
+REINDEX = []       # list of (col, sgn): x'_j = x_i if sgn[i] == 1 else ext_j - 1 - x_i, for the i with col[i] == j
+
+
+def _reindexed_equal(s, t, col, sgn, lhs, rhs0):
+    """sum over s.vars of lhs == sum over t.vars of rhs0, via y = sigma(x) on D of the variables:
+    y_{col[i]} := x_i (sgn +1) or ext - 1 - x_i (sgn -1).  sigma is a bijection of the boxes when the extents match
+    (ext_s[i] == ext_t[col[i]]): an injective affine map between finite boxes of equal cardinality."""
+    from .arr import t_eq
+    D = len(col)
+    n = len(s.vars)
+    if n < D:
+        return None
+    for spos in itertools.permutations(range(n), D):            # positions (in s.vars) of x_0..x_{D-1}
+        for tpos in itertools.permutations(range(n), D):        # positions (in t.vars) of y_0..y_{D-1}
+            if not all(valid(s.exts[spos[i]] == t.exts[tpos[col[i]]]) for i in range(D)):
+                continue
+            rest_s = [i for i in range(n) if i not in spos]
+            rest_t = [i for i in range(n) if i not in tpos]
+            if not all(valid(s.exts[a] == t.exts[b]) for a, b in zip(rest_s, rest_t)):
+                continue
+            sub = []
+            for i in range(D):
+                x = s.vars[spos[i]]
+                y = t.vars[tpos[col[i]]]
+                ext = t.exts[tpos[col[i]]]
+                sub.append((y, x if sgn[i] == 1 else ext - 1 - x))
+            sub += [(t.vars[b], s.vars[a]) for a, b in zip(rest_s, rest_t)]
+            rhs = z3.substitute(rhs0, *sub) if z3.is_expr(rhs0) else rhs0
+            st, m = sym.prove_goal(t_eq(lhs, rhs), extra=list(s.hyps))
+            if st == "proved":
+                return "proved", "re-indexed by the pixel bijection", None
+    return None
 
 
 def nonneg(a):
